@@ -95,8 +95,9 @@ def tie_status():
     terms = {n: t + "|" + two.get(n, "") for n, t in translate.translate_all(repo)}
     terms.update({"_types." + n: t for n, t in translate_types.translate_all(repo)})
     terms.update({"_methods." + n: t for n, t in translate_methods.translate_all(repo)})
-    ints, strs = set(), set()
+    lits = {}
     for fn in changed:
+        ints, strs = set(), set()
         new_t, old_t = terms.get(fn, ""), table[fn].get("term", "")
         for m in re.findall(r"\.int \((-?\d+)\)", new_t):
             if ".int (%s)" % m not in old_t and len(m) < 40:
@@ -104,9 +105,24 @@ def tie_status():
         for m in re.findall(r'\.str "((?:[^"\\]|\\.)*)"', new_t):
             if '.str "%s"' % m not in old_t and len(m) < 200:
                 strs.add(m.encode().decode("unicode_escape") if "\\" in m else m)
+        lits[fn] = (ints, strs)
+    TIE_LITERALS.clear()
+    TIE_LITERALS.update(lits)
+    return table, changed
+
+
+TIE_LITERALS = {}
+
+
+def set_hints(functions):
+    """hand the literals of the changed functions THIS property depends on to the generators"""
+    ints, strs = set(), set()
+    for fn in functions:
+        i, s = TIE_LITERALS.get(fn, (set(), set()))
+        ints |= i
+        strs |= s
     if ints or strs:
         os.environ["VERIF_HINTS"] = json.dumps({"ints": sorted(ints), "strs": sorted(strs)})
-    return table, changed
 
 
 def proof_step(prop, log):
@@ -167,6 +183,7 @@ def proof_step(prop, log):
     table, changed = tie_status()
     relevant = sorted(fn for fn, row in table.items() if row["model"] in out["uses"])      # predicates: model "JS.TyFn.apply"
     out["tie"] = {"functions_with_tie_theorem": len(table), "relevant_to_this_property": relevant, "changed": sorted(changed)}
+    set_hints([fn for fn in relevant if fn in changed])
     if relevant and changed and not any(fn in changed for fn in relevant):
         # only functions this property's theorems do not depend on changed: their tie theorems (which
         # share a module with the others) may no longer build, the relevant ones are about unchanged terms
